@@ -35,7 +35,7 @@ func (c16) NumBatches(tier string) int {
 }
 func (c16) Assumptions() []string {
 	return []string{"span start = first byte after the previous token's end that is not space/tab/CR/LF; span end = Lexer.Pos() after NextToken",
-		"string escapes are fixed width (\\xHH, \\uHHHH, \\UHHHHHHHH, a non-hex digit counts as 0), any other escaped byte stands for itself",
+		"string escapes \\x \\u \\U take up to 2/4/8 hex digits and never anything else (the closing quote is not a digit), any other escaped byte stands for itself",
 		"an unterminated string or block comment may only be followed by the end marker"}
 }
 
@@ -91,27 +91,19 @@ func refString(in []byte) (n int, val string, ok bool) {
 				out = append(out, '\f')
 			case 'v':
 				out = append(out, '\v')
-			case 'x':
-				out = append(out, hexVal(at(i))<<4|hexVal(at(i+1)))
-				i += 2
-			case 'u':
+			case 'x', 'u', 'U':
+				// up to 2 / 4 / 8 hex digits belong to the escape; anything else (the closing quote!) is not part of it
+				width := map[byte]int{'x': 2, 'u': 4, 'U': 8}[e]
 				r := rune(0)
-				for k := 0; k < 4; k++ {
-					r = r<<4 | rune(hexVal(at(i+k)))
+				for k := 0; k < width && isHex(at(i)); k++ {
+					r = r<<4 | rune(hexVal(at(i)))
+					i++
 				}
-				i += 4
-				out = utf8.AppendRune(out, r)
-			case 'U':
-				hi := rune(0)
-				for k := 0; k < 4; k++ {
-					hi = hi<<4 | rune(hexVal(at(i+k)))
+				if e == 'x' {
+					out = append(out, byte(r))
+				} else {
+					out = utf8.AppendRune(out, r)
 				}
-				lo := rune(0)
-				for k := 4; k < 8; k++ {
-					lo = lo<<4 | rune(hexVal(at(i+k)))
-				}
-				i += 8
-				out = utf8.AppendRune(out, hi<<16|lo)
 			default:
 				if i > len(in) { // the backslash was the last byte
 					return 0, "", false
@@ -125,6 +117,10 @@ func refString(in []byte) (n int, val string, ok bool) {
 		}
 		out = append(out, ch)
 	}
+}
+
+func isHex(c byte) bool {
+	return c >= '0' && c <= '9' || c >= 'a' && c <= 'f' || c >= 'A' && c <= 'F'
 }
 
 var c16Keywords map[string]bool
